@@ -234,7 +234,7 @@ def replay(ctx, path):
     if not ops:
         print("replay names a broken obligation only:", r.get("broken"))
         return 2
-    a = vlib.run_one(hcmd, ops)
+    a, ops = vlib.run_replay_conc(hcmd, ops)
     b = vlib.run_one(dcmd, ops)
     print("\n".join(a["out"]))
     kind = "lock" if " once " not in ops[0] and " refcnt " not in ops[0] else ("once" if " once " in ops[0] else "refcnt")
